@@ -57,6 +57,12 @@ func init() {
 			RunE1(c, "C11", obs)
 			RunEncodingLevels(c, []string{"op", "client", "client/rp", "client/rs", "http", "oidc"})
 			RunFormPostTemplate(c)
+			// request parameters reach the response exactly as sent: the request decoder and the response encoder are plain
+			// (no converters, no zero-empty, no alias tag); the one registered encoder is the space-delimited list
+			RunExternalMethodAllow(c, "E7.codec.decoder-plain", "zitadel/schema", "Decoder", map[string][]string{"IgnoreUnknownKeys": nil, "Decode": nil},
+				"a converter or another decoding mode rewrites parameter values (state, nonce, redirect_uri ...) before they are stored and echoed")
+			RunExternalMethodAllow(c, "E7.codec.encoder-plain", "zitadel/schema", "Encoder", map[string][]string{"Encode": nil, "RegisterEncoder": {"oidc.NewEncoder"}},
+				"a further encoder registration rewrites response / request parameter values on their way out")
 			RunFormatStrings(c, []string{"op", "oidc", "client", "client/rp", "client/rs", "http", "crypto"})
 		},
 	})
